@@ -116,7 +116,8 @@ class SmtLibCommand(namedtuple('SmtLibCommand', ['name', 'args'])):
                 option_name, value = a
                 if ":signed" != option_name:
                     outstream.write(" %s %s" % (option_name, value))
-                else:
+                elif value:
+                    # :signed is a flag: it is printed only when it is set
                     outstream.write(" %s " % option_name)
             outstream.write(")")
 
